@@ -74,3 +74,30 @@ Example C07_h264_example :
   | _, _, _ => []
   end = [DErr; DErr; DMore; DMore; DFrame [[6; 1]; [7; 2; 2; 2]]; DFrame [[8; 9; 9]]].
 Proof. vm_compute. reflexivity. Qed.
+
+(* ---- the translated kernels (tools/go2coq, regenerated from the Go source on every run) ----
+   The resynchronisation tests of decodeNALUs - the NALU type mask, the FU-A start and end bits, the expected next
+   sequence number (pkt.SequenceNumber + 1 and ++, both uint16), the continuity test pkt.SequenceNumber !=
+   d.fragmentNextSeqNum, the "no fragment pending" test d.fragmentsSize == 0 - ARE the expressions Model.decode_nalus
+   is written with. *)
+From Coq Require Import ZArith.
+From GVG Require Import Kern.
+From GV_h264 Require Import BridgeLib Bridge.
+Open Scope Z_scope.
+
+Theorem C07_h264_kernels_are_the_code : forall (b0 b1 seq next fs : N),
+  byte b0 -> byte b1 -> u16 seq -> u16 next ->
+  k_h264_dec_typ (Z.of_N b0) = Z.of_N (N.land b0 31) /\
+  k_h264_dec_start (Z.of_N b1) = Z.of_N (N.shiftr b1 7) /\
+  k_h264_dec_end (Z.of_N b1) = Z.of_N (N.land (N.shiftr b1 6) 1) /\
+  k_h264_dec_nextseq (Z.of_N seq) = Z.of_N (seq_next seq) /\
+  k_h264_dec_incseq (Z.of_N next) = Z.of_N (seq_next next) /\
+  k_h264_dec_gap (Z.of_N seq) (Z.of_N next) = negb (seq =? next)%N /\
+  k_h264_dec_nostart (Z.of_N fs) = (fs =? 0)%N.
+Proof. exact resync_kernels_are_the_code. Qed.
+Print Assumptions C07_h264_kernels_are_the_code.
+
+Example C07_h264_example_kernels :
+  k_h264_dec_typ 124 = 28 /\ k_h264_dec_start 133 = 1 /\ k_h264_dec_end 69 = 1 /\ k_h264_dec_end 133 = 0 /\
+  k_h264_dec_nextseq 65535 = 0 /\ k_h264_dec_incseq 7 = 8 /\ k_h264_dec_gap 8 8 = false /\ k_h264_dec_gap 9 8 = true.
+Proof. vm_compute. repeat split. Qed.
